@@ -21,7 +21,7 @@ META = {
     "level": "proof",
     "technique": "Coq proof (refinement of values by induction over expressions and re-simplification depth, free-variable inclusion, "
                  "normal-form argument for idempotence) + model/implementation correspondence and property oracle by vm_compute",
-    "text": "simplify_sound / simplify_no_new_free_vars / simplify_idempotent about a Gallina model of Simplifier.walk_*; the model is "
+    "text": "simplify_sound / simplify_no_new_free_vars / simplify_idempotent / raises_only_without_value about a Gallina model of Simplifier.walk_*; the model is "
             "tied to simplifier.py by structural comparison of outputs on generated expressions, and the property itself is "
             "evaluated inside Coq on the implementation's outputs under sampled interpretations.",
     "note": "Trusted: Coq kernel/vm_compute, harness serialiser. Print Assumptions: closed under the global context. "
@@ -50,6 +50,12 @@ class W11(World):
         for f in extra:
             self.fluents.append(f)
             self.problem.add_fluent(f)
+        # a user type without objects (legal in unified-planning): quantifiers over it are vacuous
+        self.T3 = tm.UserType("T3")
+        self.objs[self.T3] = []
+        f4 = Fluent("b4", tm.BoolType(), x=self.T3, environment=self.env)
+        self.f4 = f4   # not in self.fluents: the random grammar has no term of type T3 to apply it to
+        self.problem.add_fluent(f4)
         self.free_vars = [Variable("fv0", self.T0, self.env), Variable("fv1", self.T1, self.env),
                           Variable("fv2", self.T2, self.env)]
         # non-static fluents: those with an effect in some action
@@ -127,7 +133,7 @@ def targeted(w, rng):
         c = w.const_num()
         return em.Int(c) if isinstance(c, int) else em.Real(Fraction(c))
 
-    kind = rng.randrange(13)
+    kind = rng.randrange(14)
     if kind == 0:  # integer division of big constants
         big = rng.choice(BIG + [2 ** 60 + 2, 2 ** 53 + 2, 3 * (2 ** 61) + 3, -(2 ** 62) - 2, 10 ** 30 + 7])
         d = rng.choice([1, 2, 3, -2, 7, 2 ** 20, big, -big, 10])
@@ -262,10 +268,56 @@ def targeted(w, rng):
         if body.is_and() and rng.random() < 0.5:
             body = em.Or(body, boo())
         return rng.choice([em.Exists, em.Forall])(body, *vs)
+    if kind == 12:  # quantifiers over the object-less type T3 (vacuous: Forall true, Exists false)
+        return empty_type_shape(w, rng, rng.randrange(7))
     # comparisons of constants of any magnitude
     a, b = const(), const()
     return rng.choice([lambda: em.LE(a, b), lambda: em.LT(a, b), lambda: em.Equals(a, b), lambda: em.Equals(a, a),
                        lambda: em.LT(em.Plus(a, b), em.Times(a, b)), lambda: em.Equals(em.Minus(a, b), em.Div(a, em.Int(3)))])()
+
+
+def empty_type_shape(w, rng, k):
+    em = w.em
+    F = {f.name: f for f in w.fluents + [w.f4]}
+    scope = tuple(w.free_vars)
+    v = w.fresh_var(w.T3)
+    ve = em.VariableExp(v)
+    Q = rng.choice([em.Exists, em.Forall])
+    b = w.gen_bool(rng.randint(0, 2), scope)
+    if k == 0:
+        return Q(b, v)                                             # unused variable
+    if k == 1:
+        x = w.fresh_var(w.T0)
+        return Q(em.Or(F["b1"](x), b), *rng.choice([[v, x], [x, v]]))   # one used, one unused over T3
+    if k == 2:
+        return Q(F["b4"](ve), v)                                   # used: kept by both simplifiers
+    if k == 3:
+        return Q(em.Or(F["b4"](ve), em.Not(F["b4"](ve)), b), v)    # unused only after simplification of the body
+    if k == 4:
+        return em.And(b, em.Forall(em.Bool(False), v))
+    if k == 5:
+        return em.Not(em.Exists(em.Or(b, em.Bool(True)), v))
+    x = w.fresh_var(w.T3)
+    return Q(em.And(F["b4"](ve), em.Equals(ve, x)), v, x)          # elimination between two variables of the empty type
+
+
+def empty_unused_tags(e, w):
+    """tags of the known shape: a quantifier over a type without objects whose variable is unused (in the simplified body)"""
+    tags, seen, st = set(), set(), [e]
+    while st:
+        n = st.pop()
+        if n in seen:
+            continue
+        seen.add(n)
+        st.extend(n.args)
+        if n.is_exists() or n.is_forall():
+            fv = w.env.free_vars_oracle.get_free_variables(n.arg(0).simplify())
+            for v in n.variables():
+                if not w.objects_of(v.type):
+                    tags.add("quantifier-over-empty-type")
+                    if v not in fv:
+                        tags.add("unused-bound-variable")
+    return sorted(tags)
 
 
 # ------------------------------------------------------------------------------------------------ reference evaluator
@@ -450,7 +502,7 @@ def run(ctx):
             for v in w.free_vars:
                 names.var(v)
             S = Simplifier(w.env, w.problem)
-            objs_tab = {t: w.objects_of(t) for t in w.all_types()}
+            objs_tab = {t: w.objects_of(t) for t in w.all_types() + [w.T3]}
             # interpretations (shared by all the cases of this world); fluent domains here are too big to enumerate, so
             # sampled: random total, corner, and partial (some fluents undefined)
             interps = []
@@ -465,7 +517,7 @@ def run(ctx):
             obj_ty = glist([gpair(gn(names.obj(o)), gn(names.ty(o.type))) for t in w.all_types() for o in w.objs[t]])
             par_ty = glist([gpair(gn(names.par(p)), gn(names.ty(p.type))) for p in w.params if p.type.is_user_type()])
             fl_ty = glist([gpair(gn(names.fl(f)), gn(names.ty(f.type))) for f in w.fluents if f.type.is_user_type()])
-            anc = glist([gpair(gn(names.ty(t)), glist([gn(names.ty(a)) for a in t.ancestors])) for t in w.all_types()])
+            anc = glist([gpair(gn(names.ty(t)), glist([gn(names.ty(a)) for a in t.ancestors])) for t in w.all_types() + [w.T3]])
             stat_rows = []
             for (f, args) in w.ground_fluents():
                 if f in w.static:
@@ -483,10 +535,18 @@ def run(ctx):
                        % (wi, glist(stat_rows), wi, glist(itab_rows)))
 
             first = len(cases)
-            for k in range(per_world):
+            corpus = []
+            if wi == 0:  # fixed corpus: the unused quantifier over the object-less type, both quantifiers
+                b0 = [f for f in w.fluents if f.name == "b0"][0]
+                cv = w.fresh_var(w.T3)
+                corpus = [em.Forall(b0(), cv), em.Exists(em.Not(b0()), cv)]
+            for k in range(per_world + len(corpus)):
                 r = rng.random()
                 try:
-                    if r < 0.45:
+                    if k >= per_world:
+                        e = corpus[k - per_world]
+                        tgt = True
+                    elif r < 0.45:
                         e = targeted(w, rng)
                         stats["targeted"] += 1
                         tgt = True
@@ -531,9 +591,10 @@ def run(ctx):
                     n_ops = sum(c for x, c in ok_.items() if not x.endswith("CONSTANT") and x not in ("OBJECT_EXP", "PARAM_EXP", "VARIABLE_EXP"))
                     if n_ops >= 3 and o1 != e:
                         nontrivial.add((str(e), with_problem))
-                    g = ("{| c_obj_ty := OBJ_TY_w%d; c_par_ty := PAR_TY_w%d; c_fl_ty := FL_TY_w%d; c_if_ty := []; c_anc := ANC_w%d; c_tau := %s; "
+                    g = ("{| c_obj_ty := OBJ_TY_w%d; c_par_ty := PAR_TY_w%d; c_fl_ty := FL_TY_w%d; c_if_ty := []; c_anc := ANC_w%d; c_tau := %s; c_empty := %s; "
                          "c_stat := %s; c_itab := ITAB_w%d; c_e := %s; c_out := %s; c_out2 := %s; c_interps := IS_w%d |}") % (
                         wi, wi, wi, wi, glist([gpair(gn(names.var(v)), gn(names.ty(v.type))) for v in all_vars(e)]),
+                    glist([gn(names.ty(w.T3))]) if with_problem else "[]",
                         ("STAT_w%d" % wi) if with_problem else "NOSTAT", wi, ser_expr(e, names),
                         gopt(None if o1 is None else ser_expr(o1, names)), gopt(None if o2 is None else ser_expr(o2, names)), wi)
                     cases.append(g)
@@ -592,6 +653,9 @@ def run(ctx):
                 continue
             tags = ["c11", "with_problem" if c["with_problem"] else "no_problem"] + sorted("op:" + x for x in op_kinds(e))
             tags += ["fails:" + x.split(":")[0].replace(" ", "_") for x in why]
+        tags += empty_unused_tags(e, w)
+        if len(why) == 1 and why[0].startswith("value changed"):
+            tags.append("only:value_changed")
             ctx.fail("corr" if not prop_fails else "oracle",
                      "Simplifier: %s (corr:C11:simplify / simplify_sound)" % ("; ".join(why) if why else "model and implementation disagree"),
                      tags, {"world": c["world"], "expression": str(e), "with_problem": c["with_problem"],
